@@ -150,10 +150,54 @@ def check_fault_cases(run):
                                    "model_output": m.rstrip("\n")}, concrete=True)
 
 
+def oracle_actv(case, impl):
+    """C19 'to name only the proxy's address', stated directly on the real listenIP: on port 53 an address literal is the
+    address that gets named; a wildcard names the loopback address of its family; with the router integration the host
+    goes through 127.0.0.1; another port never activates."""
+    import ipaddress
+    f = case.split(" ")
+    listen = b"" if f[1] == "-" else unhex(f[1])
+    if f[2] == "1":
+        return None if impl == "addr=" + b"127.0.0.1".hex() else "router integration on: the host must be pointed at 127.0.0.1, got " + impl[:60]
+    try:
+        text = listen.decode("ascii")
+    except UnicodeDecodeError:
+        return None
+    # only the unambiguous shapes are judged here; everything else is the model diff's business
+    host = port = None
+    if text.startswith("[") and "]:" in text and text.count("[") == 1 and text.count("]") == 1 and text.index("]:") == text.rindex(":") - 1:
+        host, port = text[1:text.index("]")], text[text.rindex(":") + 1:]
+    elif text.count(":") == 1 and "[" not in text and "]" not in text:
+        host, port = text.split(":")
+    if host is None:
+        return None
+    if port not in ("53", "domain"):
+        return None if impl == "err=port" else "listen port %r is not 53 but activation went on (%s): resolv.conf would name an address nobody serves on port 53" % (port, impl[:40])
+    want = None
+    if host in ("", "0.0.0.0"):
+        want = "127.0.0.1"
+    elif host == "::":
+        want = "::1"
+    elif "%" in host:
+        want = None       # a zoned literal: net.ParseIP rejects it, activation fails with an error and writes nothing
+    else:
+        try:
+            ipaddress.ip_address(host)
+            if not any(len(x) > 1 and x[0] == "0" for x in host.split(".")):
+                want = host
+        except ValueError:
+            want = None
+    if want is not None and impl != "addr=" + want.encode().hex():
+        return "the proxy listens on %s: the activated file must name %s, listenIP gave %s" % (text, want, impl[:60])
+    return None
+
+
 SPEC = dict(
     lean_module="NV.Props.C19",
     areas=[dict(name="resolv", n_quick=3000, n_thorough=60000, shards_quick=4, shards_thorough=8, oracle=oracle_resolv, timeout=1500,
-                nontrivial=lambda c, i: " op=a:" in c or " crash=-" not in c)],
+                nontrivial=lambda c, i: " op=a:" in c or " crash=-" not in c),
+           # WHICH address activation names: the real listenIP of activate.go (package main test binary)
+           dict(name="activate", binary="main.test", n_quick=20000, n_thorough=400000, shards_thorough=4, oracle=oracle_actv)],
     extra=[check_fault_cases],
     level_text="setupResolvConf/ResetDNS are modelled as functions from the file-system state (live/backup/staging name: absent, file bytes "
                "or symlink text; files symlinks resolve to) to the exact sequence of system calls they issue; a crash is a prefix. "
@@ -165,8 +209,8 @@ SPEC = dict(
                "boundary; every resulting tree is compared with the model and checked directly against the property.",
     level_note="Trusted: Lean kernel; rename(2) atomicity and the one-write-per-Fprintln assumption (observed at every crash point by the "
                "jail); bufio.Scanner / TrimSpace / Fields semantics (modelled exactly for all byte strings, differential-tested); "
-               "NetworkManager conf.d absent; write errors (ENOSPC) and power loss without fsync are outside the model; activate.go's "
-               "listenIP (address literals) is not modelled.",
+               "NetworkManager conf.d absent; write errors (ENOSPC) and power loss without fsync are outside the model; activate.go's listenIP is modelled (NV.Activate) with net.SplitHostPort / net.ParseIP as models of the standard library; "
+               "activate() itself is not executed (regenerated shape facts).",
     trusted=COMMON_TRUST + ["kernel rename(2)/unlink(2)/open(2)/write(2) semantics on one file system", "strace 6.1 fault injection (kill on syscall entry)",
                             "translator /verif/extract (resolv.conf names, header lines, Stat/Lstat and nameserver-test shape)"],
     assumptions=["no other process touches /etc/resolv.conf* during an operation", "none of the three names is a directory; one file system",
